@@ -142,6 +142,19 @@ def templates(tier):
             spelled = o.replace("_", "-") if pre == "no-" else o
             T.append((f"each:{pre}{o}", ["x = 1\n#", (1, WS), "pytrapic: ", pre + spelled, (1, [0x20, ord(","), 0x0A]), "\n"]))
         T.append((f"each:onoff:{o}", ["# pytrapic: " + o + "\ny = 2\n# pytrapic:", (1, WS), "no", (1, [ord("-"), ord("_")]), o.replace("_", "-"), "\n"]))
+    # 9. the same option named on three lines; each line is textually "opt, ?o-opt" where ? is n (the
+    #    line switches the option off) or x (unknown tag: the line switches it on): all 8 sequences,
+    #    among them repeated identical lines around a conflicting one
+    rep_opts = OPTION_NAMES if tier == "thorough" else ["remove_labels", "compact", "append_version"]
+    for o in rep_opts:
+        line = ["# pytrapic: " + o + ", ", (1, [ord("n"), ord("x")]), "o-" + o.replace("_", "-") + "\n"]
+        T.append((f"repeat3:{o}", line + ["a = 1\n"] + line + ["b = 2\n"] + line))
+    T.append(("repeat4:two_options", ["# pytrapic: compact, ", (1, [ord("n"), ord("x")]), "o-compact\n", "# pytrapic: ", (1, [ord("n"), ord("x")]), "o-inline-functions\n",
+                                      "# pytrapic: compact, ", (1, [ord("n"), ord("x")]), "o-compact\n", "# pytrapic: ", (1, [ord("n"), ord("x")]), "o-inline-functions\n", "# pytrapic: inline-functions, ", (1, [ord("n"), ord("x")]), "o-inline_functions"]))
+    # 10. placement: far down the file, last line without a line end, first line, after blank lines
+    T.append(("late_line", ["x = 1\n" * 70 + "#", (1, WS), "pytrapic: no-inline-functions, compact\n" + "y = 2\n" * 5]))
+    T.append(("last_line_no_newline", ["x = 1\n\n\n#", (1, WS), "pytrapic: remove-labels", (1, [0x20, ord(","), ord("x")])]))
+    T.append(("first_line", ["#", (1, WS + [ord("!")]), "pytrapic: no-append-version\nx = 1\n"]))
     # 7. carriage returns
     T.append(("crlf", ["x = 1", (1, [0x0D, 0x0A]), (1, [0x0A, 0x20]), "# pytrapic: compact", (1, [0x0D, 0x20]), "\n"]))
     return T
@@ -163,15 +176,26 @@ def task(spec_):
     out = dict(name=name, base=bi, status="ok", paths=0, strings=0, problems=[], skipped_ambiguous=0)
     t0 = time.time()
 
+    call = spec_.get("call", "plain")
+
     def fn():
         c = E.ctx()
         src = build(parts, "c", c)
         o = CompileOptions(**base_opts)
+        if call == "dict_options":
+            o = dict(base_opts)
+        elif call == "modules":
+            # a project: the directive scanner reads the main module only
+            src = {"": src, "lib": e3.SymStr.of("# pytrapic: " + ", ".join(("no-" if base_opts[n] else "") + n for n in OPTION_NAMES) + "\ndef f():\n    pass\n")}
         r = mod.compile_code(src, o)
         got = {n: getattr(r["__options__"], n) for n in OPTION_NAMES}
         return src, got
 
-    paths, c = E.explore(fn, max_paths=spec_.get("max_paths", 400))
+    e3.SymStr.HASH_MODE = "length"
+    try:
+        paths, c = E.explore(fn, max_paths=spec_.get("max_paths", 400))
+    finally:
+        e3.SymStr.HASH_MODE = "identity"
     out["paths"] = len(paths)
     out["truncated"] = bool(c.work)
     out["queries"] = c.stats.queries
@@ -215,7 +239,7 @@ def task(spec_):
                     prob = None if got == want else dict(kind="wrong_options", text=text, got=got, want=want)
                 if prob is not None and prob["kind"] != "gap":
                     # replay on the real, uninstrumented compile_code
-                    conf = replay(text, base_opts)
+                    conf = replay(text, base_opts, call)
                     if conf is not None:
                         prob["replayed"] = conf
                         out["problems"].append(prob)
@@ -241,17 +265,22 @@ def task(spec_):
     return out
 
 
-def replay(text, base_opts):
+def replay(text, base_opts, call="plain"):
     """Real compile_code on the concrete text: returns a description if it misbehaves, else None."""
     from stationeers_pytrapic import compiler as rc
     from stationeers_pytrapic.compile_pass import CompileOptions
 
     o = CompileOptions(**base_opts)
+    src = text
+    if call == "dict_options":
+        o = dict(base_opts)
+    elif call == "modules":
+        src = {"": text, "lib": "# pytrapic: " + ", ".join(("no-" if base_opts[n] else "") + n for n in OPTION_NAMES) + "\ndef f():\n    pass\n"}
     real_compiler = rc.Compiler
     rc.Compiler = _Stub
     try:
         try:
-            r = rc.compile_code(text, o)
+            r = rc.compile_code(src, o)
         except Exception as e:
             return f"raises {type(e).__name__}: {e}"
         got = {n: getattr(r["__options__"], n) for n in OPTION_NAMES}
@@ -274,6 +303,11 @@ def run(tier: str) -> int:
             if tier == "quick" and bi and not name.startswith(("dash", "last", "in_string:", "each:")):
                 continue
             items.append(dict(name=name, parts=parts, base=bi))
+            if name.startswith(("each:onoff", "lead:", "late_line", "repeat3")) and (tier == "thorough" or bi == 2 or name.startswith("repeat3")):
+                for call in ("dict_options", "modules"):
+                    if call == "dict_options" and not name.startswith(("each:onoff:compact", "lead:compact", "late_line")):
+                        continue
+                    items.append(dict(name=name + "@" + call, parts=parts, base=bi, call=call))
     results = harness.pmap(task, items, placeholder=lambda it, st, d: dict(name=it["name"], base=it["base"], status="inconclusive", detail=f"{st}: {d}", paths=0, strings=0, problems=[], skipped_ambiguous=0))
     strings = 0
     nontrivial = 0
@@ -291,12 +325,12 @@ def run(tier: str) -> int:
             if key in seen:
                 continue
             seen.add(key)
-            path = e1.save_replay(PROP, dict(property=PROP, kind="directive", name=spec_["name"], base=BASES[spec_["base"]], problem=pr))
-            rep.violation(f"{spec_['name']}: {pr['kind']} on {pr['text']!r}: {pr.get('replayed')}", path)
+            path = e1.save_replay(PROP, dict(property=PROP, kind="directive", name=spec_["name"], base=BASES[spec_["base"]], call=spec_.get("call", "plain"), problem=pr))
+            rep.violation(f"{spec_['name']}: {pr['kind']} on {_short(pr['text'])}: {pr.get('replayed')}", path)
     rep.coverage = dict(
         evaluations=strings,
         distinct_nontrivial=nontrivial,
-        rule="templates (directive line with symbolic blanks/junk, '-'/'_' spellings, last-wins, after-code and in-string placements with line-boundary look-alikes, separators, adversarial attribute names, CR/LF) x caller option vectors; every feasible path of the real scanner is explored, every string of every path class is compared with the specification and mismatches are replayed on the real compile_code; non-trivial = template with >= 2 feasible paths",
+        rule="templates (directive line with symbolic blanks/junk, '-'/'_' spellings, last-wins, three / five directive lines naming the same options with symbolic polarity (all on/off sequences, repeated identical lines), first / last / 71st line, after-code and in-string placements with line-boundary look-alikes, separators, adversarial attribute names, CR/LF; options passed as object or dict; project with a library module whose own directives must be ignored) x caller option vectors; every feasible path of the real scanner is explored, every string of every path class is compared with the specification and mismatches are replayed on the real compile_code; non-trivial = template with >= 2 feasible paths",
         samples=[dict(template=items[0]["name"], parts=[p if isinstance(p, str) else f"<{p[0]} symbolic chars over {[hex(a) for a in p[1]]}>" for p in items[0]["parts"]])],
         templates=len(items),
         paths=sum(r["paths"] for r in results),
@@ -309,6 +343,11 @@ def run(tier: str) -> int:
         exhaustive=False,
     )
     return rep.finish()
+
+
+def _short(text):
+    r = repr(text)
+    return r if len(r) <= 260 else r[:120] + " ... " + r[-120:]
 
 
 def _known(known, name, pr):
